@@ -59,7 +59,9 @@ m = {
     }],
     'checks': checks,
     'notes': 'Contracts live in /repo/**/zz_contracts_verif.go (tag verif) and /verif/contracts; expectation lists in /verif/checks; '
-             'known findings in /verif/known_findings.json; seeded breaking changes in /verif/seeded.',
+             'known findings in /verif/known_findings.json; seeded breaking changes in /verif/seeded. '
+             '/repo commit 3766ad6 ("uncommitted hook changes", made by the round driver) is not a hook: it is seed C20-J caught in /repo\'s working tree by the end-of-round snapshot; '
+             'it broke C20, the check reported it, and fix: commit e445ed7 repairs it (DESIGN.md §7 D17).',
     'not_applicable': na,
 }
 json.dump(m, open(f'{V}/MANIFEST.json', 'w'), indent=1)
